@@ -5,7 +5,7 @@ PROP = "C02"
 
 
 def main():
-    return G.main(PROP, dict(verus_units=[("compute_state_closure", 17), ("nfa_to_dfa_targets", 11)],
+    return G.main(PROP, dict(verus_units=[("compute_state_closure", 17), ("nfa_to_dfa_targets", 11), ("dfa_state_of", 2)],
                              trusted=G.COMMON_TRUSTED + [
                                  "Verus unit compute_state_closure (real NFA::compute_state_closure and next_empty_states, rules subst R7 R10 R14 R16): assumed specs of <&HashSet as IntoIterator>::into_iter "
                                  "(length, no duplicates, completeness; soundness is PROVED from these by a pigeonhole lemma) and of HashSet::clone; obeys_key_model::<StateIdx>() (axiom); "
@@ -17,4 +17,7 @@ def main():
                                  "proved for compute_state_closure: the result contains the given states, is closed under empty transitions, every member is reachable from the given states by empty transitions "
                                  "(so it is exactly the epsilon-closure), all members are states of the automaton, and the work-list loop terminates",
                                  "proved for nfa_to_dfa (unit nfa_to_dfa_targets): the target set of a character transition of the subset construction is EXACTLY its own targets plus the targets of every range "
-                                 "transition containing the character plus the `_` targets; the target set of a range transition is EXACTLY its own targets plus the `_` targets"]))
+                                 "transition containing the character plus the `_` targets; the target set of a range transition is EXACTLY its own targets plus the `_` targets",
+                                 "proved for nfa_to_dfa::dfa_state_of_nfa_states (real text, unit dfa_state_of): a set of NFA states seen before gets the DFA state it got before and nothing changes; a new set gets a NEW "
+                                 "DFA state and is recorded; every recorded DFA state exists and two different sets never share one (the BTreeSet key is used opaquely; obeys_key_model for it is an axiom; "
+                                 "DFA::new_state by its contract from unit dfa_builders)"]))
